@@ -5,7 +5,7 @@
    Definitions only.  The persistent store is an abstract map bodyid -> annotation per version
    (a chain of versions); JSON text <-> Go value conversion, the regular expression engine and
    the JSON-schema validator are inputs. *)
-From DV Require Import Base.Prelude.
+From DV Require Import Base.Prelude Gen.Consts.
 Local Open Scope N_scope.
 
 (* ---------- JSON values as Go holds them after NeuronJSON.UnmarshalJSON ---------- *)
@@ -379,9 +379,10 @@ Definition loadMemDB (d : ndata) : res memdb :=
   res_bind (init_ftimes data []) (fun ft =>
     Ok (mkMem data (sort_ids (map fst d)) (scan_counts d) ft)).
 
-Definition k_json_schema : N := 0.
-Definition k_schema : N := 1.
-Definition k_schema_batch : N := 2.
+(* type Schema (iota), read from neuronjson.go into Gen/Consts.v *)
+Definition k_json_schema : N := n_nj_JSONSchema.
+Definition k_schema : N := n_nj_NeuSchema.
+Definition k_schema_batch : N := n_nj_NeuSchemaBatch.
 
 Definition load_meta (V : variant) (locked : bool) (sm : list (N * bytes)) : list (N * bytes) :=
   let m0 := if v_meta V || negb locked
